@@ -23,7 +23,7 @@ def describe(tier):
                    9 if tier == 'quick' else 12),
         'bounds': 'see rule',
         'assumptions': ['identifier bytes are DRBG values apart from the awkward members'],
-        'must_be_nonzero': ['blocks-roundtrip', 'parse-by-count', 'too-small-block-refused', 'compositions', 'bad-sum-refused', 'int-roundtrip', 'hex-db', 'hex-db-mixed-lengths'],
+        'must_be_nonzero': ['blocks-roundtrip', 'parse-by-count', 'too-small-block-refused', 'compositions', 'bad-sum-refused', 'int-roundtrip', 'hex-db', 'hex-db-mixed-lengths', 'hex-db-iterables'],
     }
 
 
@@ -322,6 +322,22 @@ def run_unit(p, tier, seed):
                         r.v(PROPERTY, 'database_utils', 'hexdb', 'identifier-length', case, n, sorted({len(x) for x in got}))
                     if bu.BytesConverter.convert_bytes(kw.encode('utf-8'), 'utf8') != kw:
                         r.v(PROPERTY, 'bytes_utils', 'hexdb', 'utf8-format', case, kw, 'differs')
+        # posting lists handed over as other iterables (tuple, generator, iterator): the same bytes database
+        ids_ = [g.randbytes(8).hex() for _ in range(5)]
+        for how, mk in (('tuple', tuple), ('generator', lambda l: (x for x in l)), ('iterator', iter), ('list', list)):
+            dbv = {'w': mk(ids_), 'second': mk(ids_[::-1])}
+            case = {'posting_lists_as': how}
+            r['evaluations'] += 1
+            r['transitions'] += 1
+            try:
+                bdb = du.convert_database_keyword_to_bytes(dbv)
+                got = {k: list(v) for k, v in bdb.items()}
+            except Exception as e:
+                r.count('posting-list-type-refused:' + how)
+                continue
+            r.count('hex-db-iterables')
+            if got != {b'w': [bytes.fromhex(h) for h in ids_], b'second': [bytes.fromhex(h) for h in ids_[::-1]]}:
+                r.v(PROPERTY, 'database_utils', 'hexdb', 'posting-lists-as-' + how, case, 'the same bytes database as from lists', {k: [x.hex() for x in v] for k, v in got.items()})
         # identifiers of DIFFERENT lengths in one list: every sequence of 1..4 lengths over {1,2,3,4,6,16} bytes
         import itertools as _it
         for k in range(1, 5):
